@@ -42,7 +42,7 @@ impl Prop for C13 {
         "exploration"
     }
     fn rule(&self) -> String {
-        "run = seeded valid writer history executed twice: once with every transfer complete (the memory run, which is the model) and once under a seeded transfer schedule at every seam: writer sink accepting 1 byte / 1..n bytes per call with bursts of Interrupted errors, per-append piece sources returning 1 / 1..n bytes (optionally holding more than announced), reader and repair source returning 1 / 1..n bytes per read, repair output sink splitting and interrupting. Oracle: all writer calls succeed; with sink-only schedules on the hook variants the stored image is byte-identical to the memory run; the archive reads back to the abstract model under the reader schedule; repair (both modes) of the intact image and of one seeded cut gives the same status, unfinished set and per-file bytes as the memory run. On s0 one third of the runs use the all-ones schedule on every seam. distinct_nontrivial = distinct (variant, layers, sink kind, piece kinds, source kind, out-sink kind, cut region) signatures.".into()
+        "run = seeded valid writer history executed twice: once with every transfer complete (the memory run, which is the model) and once under a seeded transfer schedule at every seam: writer sink accepting 1 byte / 1..n bytes per call with bursts of Interrupted errors, per-append piece sources returning 1 / 1..n bytes (optionally holding more than announced), reader and repair source returning 1 / 1..n bytes per read, repair output sink splitting and interrupting. Oracle: all writer calls succeed; with sink-only schedules on the hook variants the stored image is byte-identical to the memory run; the archive reads back to the abstract model under the reader schedule, with caller buffers of 1, 13, 4096, 65536 or 1 MiB bytes; repair (both modes) of the intact image and of one seeded cut gives the same status, unfinished set and per-file bytes as the memory run. On s0 one third of the runs use the all-ones schedule on every seam. distinct_nontrivial = distinct (variant, layers, sink kind, piece kinds, source kind, out-sink kind, cut region) signatures.".into()
     }
     fn assumptions(&self) -> Vec<String> {
         vec![
@@ -153,13 +153,15 @@ impl Prop for C13 {
                 v.push(Violation::new("sched-image-differs", format!("sink={}", case.sink.kind()), format!("stored bytes differ from the memory run: {} vs {} bytes, first difference at {}", image_s.len(), image_ref.len(), first_diff(&image_s, &image_ref))));
             }
         }
-        v.extend(check_readback(s, &image_s, &rcfg_full, &model, 4096, ctx, "sched-w"));
+        // the caller's read buffer varies as well (1 byte .. 1 MiB: larger than every internal buffer)
+        let rb = [1usize, 13, 4096, 4096, 1 << 16, 1 << 20][(case.cfg.key_seed % 6) as usize];
+        v.extend(check_readback(s, &image_s, &rcfg_full, &model, rb, ctx, "sched-w"));
         // reading under a source schedule
         let src_sched = sched_from(case, "src");
         let out_sched = sched_from(case, "out");
         let mut rcfg = rcfg_full.clone();
         rcfg.sched = src_sched.clone();
-        v.extend(check_readback(s, &image_ref, &rcfg, &model, 4096, ctx, "sched-r"));
+        v.extend(check_readback(s, &image_ref, &rcfg, &model, rb, ctx, "sched-r"));
         // repair: intact and one cut, both modes, vs the memory run
         let ocfg = ArcCfg { variant: case.cfg.variant.clone(), layers: 0, level: 0, recipients: 0, reader: 0, rng_seed: 0, key_seed: 0 };
         let plain = ReadCfg { keys: vec![], sched: Sched::Full, budget: u64::MAX / 2, error_at_read: None, spill_path: None, explicit_auth_mode: false };
